@@ -202,7 +202,7 @@ def r4_schedule(run, w):
     f = w.fn(q)
     fr = res_of(w, f)
     for (n, c, nm) in f.calls():
-      if nm == "self._update_loop" and c.args:
+      if nm == "self._update_loop" and call_arg(c, 0, "work_items") is not None:
         a = fr.expand(call_arg(c, 0, "work_items"), n.id)
         ok = isinstance(a, ast.Call) and (f.name(a) or "") == "self._make_sorted_work_items"
         run.ob(R4, q, "self._update_loop(<sorted work items>%s)" %
